@@ -133,6 +133,8 @@ struct State {
     send_err: u32,
     senders_running: u32,
     any_close: bool,
+    /// (side, channel id): the side's application was handed this in-band channel
+    announced: std::collections::HashSet<(usize, u16)>,
 }
 
 fn on_event(ctx: &CtxLite, st: &Arc<Mutex<State>>, side: usize, ch: u16, ev: Option<DataChannelEvent>) {
@@ -553,7 +555,7 @@ pub async fn run(ctx: &Ctx) {
             _ => {}
         }
     }
-    let st = Arc::new(Mutex::new(State { recv: HashMap::new(), sent_ok: HashMap::new(), send_err: 0, senders_running: 0, any_close: false }));
+    let st = Arc::new(Mutex::new(State { recv: HashMap::new(), sent_ok: HashMap::new(), send_err: 0, senders_running: 0, any_close: false, announced: std::collections::HashSet::new() }));
     for spec in specs.iter() {
         for side in 0..2usize {
             // receiver on `side` gets what the other side planned
@@ -711,6 +713,7 @@ pub async fn run(ctx: &Ctx) {
                         }
                     }
                     keep.lock().unwrap().push(dc.clone());
+                    st.lock().unwrap().announced.insert((side, dc.id));
                     let st = st.clone();
                     let c2 = CtxLite { sh: c.sh.clone() };
                     let open_tx = open_tx.clone();
@@ -743,20 +746,35 @@ pub async fn run(ctx: &Ctx) {
         let st2 = st.clone();
         let c = CtxLite { sh: ctx.sh.clone() };
         let (side, ch, sender, list) = (*side, *ch, *sender, list.clone());
+        let early = plan.knob("early_send", 0) == 1 && specs.iter().any(|sp| sp.id == ch && sp.inband && sp.creator == side && sp.late_ms == 0);
         st.lock().unwrap().senders_running += 1;
         sender_handles.push(tokio::spawn(vh::wrap_task(async move {
             let who = if side == 0 { "A" } else { "B" };
-            // an application sends once its channel reported Open
-            while !*open.borrow() {
-                if open.changed().await.is_err() {
-                    break;
+            // an application sends once its channel reported Open - or (knob early_send, creator of an in-band channel) as
+            // soon as the association takes data, before the peer's DCEP ACK: RFC 8832 allows it, and so does send_data()
+            if !early {
+                while !*open.borrow() {
+                    if open.changed().await.is_err() {
+                        break;
+                    }
                 }
             }
             let t0 = c.sh.lock().unwrap().t0;
+            let mut first = early;
             for (at, idx, len) in list {
                 tokio::time::sleep_until(t0 + Duration::from_millis(at)).await;
                 let m = content(side, ch, sender, idx, len);
-                let r = sctp.send_data(ch, &m).await;
+                let mut r = sctp.send_data(ch, &m).await;
+                if first {
+                    // the association may not be established yet: retry every millisecond for up to 60 s
+                    let mut tries = 0;
+                    while r.is_err() && tries < 60_000 {
+                        tokio::time::sleep(Duration::from_millis(1)).await;
+                        r = sctp.send_data(ch, &m).await;
+                        tries += 1;
+                    }
+                    first = false;
+                }
                 match r {
                     Ok(()) => {
                         c.ev(&format!("api {who} send ch{ch} ok"), &format!("sender={sender} idx={idx} len={len}"));
@@ -840,6 +858,13 @@ pub async fn run(ctx: &Ctx) {
                     }
                 }
             }
+            // an in-band channel its creator has sent on must have been handed to the peer's application
+            for sp in specs.iter().filter(|sp| sp.inband) {
+                let sent_any = s.sent_ok.iter().any(|((sd, ch, _), n)| *sd == sp.creator && *ch == sp.id && *n > 0);
+                if sent_any && !s.announced.contains(&(1 - sp.creator, sp.id)) {
+                    all = false;
+                }
+            }
             (s.senders_running, all)
         };
         if running == 0 && all && now >= plan.heal_at_ms.min(last_op + 1000) {
@@ -883,6 +908,13 @@ pub async fn run(ctx: &Ctx) {
             }
         }
         missing.sort();
+        let mut unannounced = Vec::new();
+        for sp in specs.iter().filter(|sp| sp.inband) {
+            let sent_any = s.sent_ok.iter().any(|((sd, ch, _), n)| *sd == sp.creator && *ch == sp.id && *n > 0);
+            if sent_any && !s.announced.contains(&(1 - sp.creator, sp.id)) {
+                unannounced.push(format!("ch {} (created by {}, ordered={}, max_retransmits={:?}, max_packet_life_time={:?})", sp.id, if sp.creator == 0 { "A" } else { "B" }, sp.ordered, sp.max_retransmits, sp.max_life));
+            }
+        }
         let running = s.senders_running;
         drop(s);
         for (i, sd) in sides.iter().enumerate() {
@@ -896,6 +928,12 @@ pub async fn run(ctx: &Ctx) {
                 );
             } else if running > 0 {
                 ctx.stat("probe.sender_blocked_at_deadline", 1);
+            }
+            if !unannounced.is_empty() {
+                ctx.violate(
+                    "C12.appear",
+                    format!("{} virtual ms after the network healed (heal_at={} ms, bound {} ms) and with no close reported, the in-band channel(s) {} - on which the creator's send_data() succeeded - never appeared at the peer", ctx.now_ms() - plan.heal_at_ms, plan.heal_at_ms, bound, unannounced.join("; ")),
+                );
             }
         } else {
             ctx.stat("escape.closed", 1);
